@@ -376,12 +376,19 @@ def check_framing(repo, driver, cases):
         if real != des:
             diffs.append({'what': 'desugared-framing', 'input': ''.join(chars)[:80], 'real': real[:4], 'desugared': des[:4]})
             continue
-        # the translated method, message by message
+        # the translated method, message by message (all streams in ONE batch of the driver)
         w = world_code({'bytes': list(chars)}, {}, [], eof)
-        batch = [f'Y.let fr oFraming{{_w={w}}}'] + ['Y.methr fr Framing receive_message'] * n
-        answers = driver.run(batch)[1:]
+        reg = f'fr{len(expect)}'
+        lines.append([f'Y.let {reg} oFraming{{_w={w}}}'] + [f'Y.methr {reg} Framing receive_message'] * n)
+        expect.append((real, ''.join(chars)))
+    flat = [l for batch in lines for l in batch]
+    answers = driver.run(flat) if flat else []
+    k = 0
+    for batch, (real, text) in zip(lines, expect):
+        ans = answers[k + 1:k + len(batch)]
+        k += len(batch)
         got = []
-        for a in answers:
+        for a in ans:
             parts = a.split(' ')
             if parts[0] == 'ok':
                 node = PC.parse(parts[1])
@@ -390,5 +397,5 @@ def check_framing(repo, driver, cases):
                 got.append(('exc', parts[1] if len(parts) > 1 else a))
                 break
         if got != real:
-            diffs.append({'what': 'translated-framing', 'input': ''.join(chars)[:80], 'real': real[:4], 'minipy': got[:4]})
+            diffs.append({'what': 'translated-framing', 'input': text[:80], 'real': real[:4], 'minipy': got[:4]})
     return diffs
